@@ -79,3 +79,18 @@ Theorem C14_stop_accepts : forall m b src d m1 b1 n, parse_source true m b src =
   parse_source false m b src = POk d m1 b1 n.
 Proof. exact source_stop_accepts. Qed.
 Print Assumptions C14_stop_accepts.
+
+(* every error lies within the document: at one of its physical lines, or -- the end of file -- one line past the
+   last; for the collected list as for the single error of stop mode.  (Generic part ErrorsWithin.v: every error
+   a parse reports was raised by the matcher on a scanned token, by the builder on tokens it was given, or is the
+   `unexpected` error of a token logged as unexpected; the delivery theorem of C18 bounds the latter.) *)
+Require Import PipelineFacts ErrorsWithinInst.
+Theorem C14_errors_within : forall stop m b src, wf_ms m ->
+  let n := length (py_lines src) in
+  match parse_source stop m b src with
+  | PErrs es _ _ _ => Forall (fun e => 1 <= loc_line (e_loc e) <= S n) es
+  | PErr1 e _ _ _ => 1 <= loc_line (e_loc e) <= S n
+  | _ => True
+  end.
+Proof. exact errors_within. Qed.
+Print Assumptions C14_errors_within.
